@@ -62,8 +62,9 @@ func discharge(fr *FuncResult, workdir string, perOblS int, sem chan struct{}, t
 		ln = strings.TrimSpace(ln)
 		if ln == "sat" || ln == "unsat" || ln == "unknown" || ln == "timeout" {
 			answers = append(answers, ln)
-		} else if strings.HasPrefix(ln, "(error") {
+		} else if strings.HasPrefix(ln, "(error") && !strings.Contains(ln, "model is not available") {
 			fr.Notes = append(fr.Notes, "solver error: "+ln)
+			fr.Err = "the generated SMT script is ill-formed (engine error): " + ln
 		}
 	}
 	per := secs / float64(len(obls))
